@@ -2,6 +2,6 @@ import Ymq.Props.C09
 #print axioms Ymq.C09.step_gcd
 #print axioms Ymq.C09.gcd_internal_spec
 #print axioms Ymq.C09.big_gcd_spec
-#print axioms Ymq.C09.inv_mod_spec_partial
+#print axioms Ymq.C09.inv_mod_spec
 #print axioms Ymq.C09.reduce64_inv
 #print axioms Ymq.C09.gcd_terminates
